@@ -468,7 +468,7 @@ func init() {
 		c.Run.Set("inertness_evaluations", inert)
 		c.Run.Set("evaluations", evals+inert)
 		c.Run.Set("distinct_nontrivial", accepted+inert)
-		c.Run.Set("rule", fmt.Sprintf("every concatenation of 1..%d tokens over %d tokens as a line through NewRule/NewNetworkRule/NewHostRule/NewCosmeticRule, every rule obtained matched against 8 requests, engines of every kind built from lines of <=3 tokens; every list of <=%d of 10 rules with each of %d noise lines at every non-empty subset of the gaps, LF and CRLF; non-trivial = accepted lines + inertness cases", n, k, maxRules, len(c12Noise)))
+		c.Run.Set("rule", fmt.Sprintf("every concatenation of 1..%d tokens over %d tokens as a line through NewRule/NewNetworkRule/NewHostRule/NewCosmeticRule, every rule obtained matched against 8 requests, engines of every kind built from lines of <=3 tokens; every list of <=%d of %d rules with each of %d noise lines at every non-empty subset of the gaps, with LF, CRLF and both mixed endings (String and File backing); every ordered pair of the 47-rule structural pool as [x, badfilter twin of y] through every engine and query kind (no crash); every line of the bundled real-world lists (quick: every 4th) and single-character mutants of a stride of them; non-trivial = accepted lines + inertness cases", n, k, maxRules, len(c12Rules), len(c12Noise)))
 		c.Run.Set("exhaustive", exhaustive)
 		c.Run.Assumption("arbitrary byte strings / fuzzing are a different family; the claim is exhaustive up to the token bound only")
 	})
